@@ -106,6 +106,7 @@ typedef struct {
   int parent[NREG];   /* -1: owner, else register of the parent (window) */
   int nwin[NREG];     /* live windows on this register */
   mzp_t *p[NPREG];
+  mzd_t *hid[NREG];   /* hidden parents of window operands created by `wmat` (slot = register of the window) */
   long ret[64];
   int nret;
   uint64_t ophash;    /* rolling hash of scalar results */
